@@ -14,6 +14,7 @@ INV = ["RestoreOK", "FilesSafe", "LiveTablesExist", "SeqOK"]
 
 def run(c):
     q = c.tier == "quick"
+    dkvlib.run_scripts(c, True)
     r = vlib.run_tlc("Dkv", cfg=dict(constants=dkvlib.consts(Vals={1}, MaxOps=3, MaxReads=0, MaxCkpt=1, MaxReopen=1, MaxRetain=1, MaxGc=1),
                                      invariants=INV, properties=["WalReclaimed"], view="view"), timeout=1500, name="Dkv-gc")
     c.add_tlc(r, "Dkv files exhaustive ops=3 ckpt=1 reopen=1 retain=1 gc=1")
